@@ -47,6 +47,16 @@ def outcome(fn):
         return "E:" + err_kind(e)
 
 
+def outcome_twice(fn):
+    """the same request made twice on the same object (a retry after catching the error): an invalid request is rejected every time it
+    is made, not only the first time"""
+    first = outcome(fn)
+    if first == "ok":
+        return first
+    second = outcome(fn)
+    return first if second == first else f"{first}, asked again: {'accepted' if second == 'ok' else second}"
+
+
 def is_pos_int(v):
     return isinstance(v, (int, np.integer)) and not isinstance(v, bool) and v > 0
 
@@ -124,7 +134,7 @@ def build_table(ctx, rng):
             for meth in ("set_number_of_sensors", "set_n_sensors"):
                 m = copy.deepcopy(base)
                 before = sspor_obs(m, X)
-                real = outcome(lambda: getattr(m, meth)(v))
+                real = outcome_twice(lambda: getattr(m, meth)(v))
                 after = sspor_obs(m, X)
                 valid = is_pos_int(v) and v <= nf
                 req = "E:NotFitted" if not fitted else (None if valid else "E:ValueError")
@@ -187,7 +197,7 @@ def build_table(ctx, rng):
                 continue
             m = copy.deepcopy(base)
             before = sspoc_obs(m, Xc)
-            real = outcome(lambda: m.update_sensors(n_sensors=v, quiet=True))
+            real = outcome_twice(lambda: m.update_sensors(n_sensors=v, quiet=True))
             after = sspoc_obs(m, Xc)
             valid = is_nonneg_int(v) and v <= nf
             req = "E:NotFitted" if not fitted else (None if valid else "E:ValueError")
@@ -198,6 +208,14 @@ def build_table(ctx, rng):
             after = sspoc_obs(m, Xc)
             req = "E:ValueError" if (not is_pos_int(v) or v > Xc.shape[0]) else None
             T.add(f"SSPOC[{phase}].update_n_basis_modes({v!r})", real, req, None, (before == after) if (real != "ok" and req is not None) else None)
+        if fitted:
+            # an update whose refit data the classifier refuses (labels one short): rejected – and nothing may have changed
+            for nreq in (2, 1):
+                m = copy.deepcopy(base)
+                before = sspoc_obs(m, Xc)
+                real = outcome(lambda: m.update_sensors(n_sensors=nreq, xy=(Xc.copy(), yc[:-1].copy()), quiet=True))
+                T.add(f"SSPOC[{phase}].update_sensors(n_sensors={nreq}, xy=refused_refit_data)", real, "E:ValueError", None,
+                      (before == sspoc_obs(m, Xc)) if real != "ok" else None)
         m = copy.deepcopy(base)
         before = sspoc_obs(m, Xc)
         real = outcome(lambda: m.update_sensors(quiet=True))
@@ -260,6 +278,16 @@ def build_table(ctx, rng):
         real = outcome(lambda: GQR().fit(Bm.copy(), **kw))
         valid = name in ("", "max_n", "exact_n", "predetermined")
         T.add(f"GQR.fit(constraint_option={name!r})", real, None if valid else "E:NotImplemented", f"vrule gqropt {name or 'EMPTY'}")
+        if not valid:
+            # … on an optimizer object that is kept: fresh, or fitted before with a valid option; directly or through SSPOR.fit's keywords
+            for prior in ("fresh", "after_max_n", "after_exact_n"):
+                g = GQR()
+                if prior != "fresh":
+                    g.fit(Bm.copy(), **dict(kw, constraint_option=prior[6:]))
+                T.add(f"GQR[{prior}].fit(constraint_option={name!r}) twice", outcome_twice(lambda: g.fit(Bm.copy(), **kw)), "E:NotImplemented",
+                      f"vrule gqropt {name}")
+            ms = SSPOR(basis=Identity(), optimizer=GQR())
+            T.add(f"SSPOR(GQR).fit(constraint_option={name!r}) twice", outcome_twice(lambda: ms.fit(X.copy(), quiet=True, **kw)), "E:NotImplemented")
     # (an unfitted optimizer is not among the objects the property lists: QR().get_sensors() returns None – not judged)
 
     # ---------------- box helper / validate_input
@@ -311,6 +339,8 @@ def judge(ctx, T, info, tag):
             continue
         if unchanged is False:
             sig = "rejected-call-mutates:" + cell.split("(")[0]
+            if "xy=refused_refit_data" in cell:
+                sig = "rejected-call-mutates:SSPOC.update_sensors:selection-committed-before-the-classifier-refit"
             if "update_n_basis_modes" in cell and "x=short" in cell:
                 sig = "rejected-call-mutates:SSPOR.update_n_basis_modes:refit-on-other-data-then-n_sensors-check"
             ctx.violation("concrete", f"{cell}: the call was rejected ({real}) but selected sensors / sensor count / predictions changed",
